@@ -25,6 +25,7 @@ Full statement aimed at (kept visible; what is proved of it is listed below):
 -/
 import HickoryVerif.Lemmas.ZoneParseStore
 import HickoryVerif.Lemmas.ZoneParseName
+import HickoryVerif.Lemmas.ZoneParseTotal
 
 namespace HickoryVerif.C20
 open HickoryVerif HickoryVerif.ZoneLex HickoryVerif.ZoneParse HickoryVerif.Spec.MasterFile
@@ -34,14 +35,7 @@ open HickoryVerif HickoryVerif.ZoneLex HickoryVerif.ZoneParse HickoryVerif.Spec.
 /-- **The lexer loop terminates without any iteration cap**: from every configuration the loop
 returns after at most `8·|remaining text| + 8` iterations (`iter n` is `n` iterations of the
 loop as coded, `run` its well-founded fixpoint). -/
-theorem lex_total (c : Cfg) : ∃ n, n ≤ measure c + 1 ∧ iter n c = some (run c) := by
-  induction c using run.induct with
-  | case1 c t txt st h => exact ⟨1, by omega, by simp [iter, h, run_ret h]⟩
-  | case2 c h => exact ⟨1, by omega, by simp [iter, h, run_fail h]⟩
-  | case3 c c' h ih =>
-    obtain ⟨n, hn, hi⟩ := ih
-    have := step_decreases h
-    exact ⟨n + 1, by omega, by simp [iter, h, run_cont h, hi]⟩
+theorem lex_total (c : Cfg) : ∃ n, n ≤ measure c + 1 ∧ iter n c = some (run c) := iter_complete c
 
 example : measure { txt := [59, 120, 10], state := .startLine, cd := none, cdv := none } = 31 := by decide
 
@@ -73,10 +67,15 @@ theorem no_panic (text : List Nat) (origin : Option Name) (s : String) : parse t
   · cases st <;> first | exact NoPanic.ok _ | exact (Ctx.insert_spec hinv' _).1
   · split <;> first | exact NoPanic.ok _ | exact NoPanic.err
 
-/-- **The token loop terminates**: it is defined by recursion on the length of the remaining text
-(no cap, no fuel), and its defensive "no progress" branch is dead. -/
+/-- **`Parser::parse` terminates on every text, with an explicit bound**: `parseN n` runs the two
+loops as coded — at most `n` iterations of `while let Some(t) = lexer.next_token()?`, each
+`next_token` at most `n` iterations of its `loop` — and with `n = 8·|text| + 9` it always
+finishes, with the result of `parse`.  (No cap in the code is needed for this; and the model's
+defensive "no progress" branch is dead.) -/
 theorem parse_total (text : List Nat) (origin : Option Name) :
-    parse text origin ≠ .panic "hang:parse-loop" := no_panic text origin _
+    parseN (8 * text.length + 9) text origin = some (parse text origin) ∧
+    parse text origin ≠ .panic "hang:parse-loop" :=
+  ⟨parseN_complete text origin, no_panic text origin _⟩
 
 /-! ## lexing rendered files — all layouts of the printer -/
 
